@@ -39,7 +39,7 @@ type annObs struct {
 }
 
 func runC16(r *Run) {
-	r.Result.Rule = "scenario = simulated network of 4..30 nodes answering get_peers with distinct tokens / without token / with values / with an error / not at all, replies released in PRNG order; options crossed (port / implied port / no announce / scrape), consumer reading Peers or not, Close or StopTraversing at a random point or none; every announce_peer the server emits is decoded and compared with the token that very node issued; + Close/StopTraversing issued during a slow blocklist look-up made by the node filter under the traversal lock (multi-P and single-P); non-trivial = run in which at least one announce_peer is sent"
+	r.Result.Rule = "scenario = simulated network of 4..30 nodes answering get_peers with distinct tokens / without token / with values / with an error / not at all, replies released in PRNG order, now and then preceded by a response under the same transaction ID from another node's address (forged token and values); options crossed (port / implied port / no announce / scrape), consumer reading Peers or not, Close or StopTraversing at a random point or none; every announce_peer the server emits is decoded and compared with the token that very node issued; + Close/StopTraversing issued during a slow blocklist look-up made by the node filter under the traversal lock (multi-P and single-P); non-trivial = run in which at least one announce_peer is sent"
 	n := r.n(100, 2500)
 	for i := 0; i < n; i++ {
 		r.c16Scenario(i)
